@@ -225,7 +225,7 @@ class Routing(Interface):
         )
         try:
             await self.transport.connect()
-        except OSError as ex:
+        except (OSError, CommunicationError) as ex:
             logger.debug(
                 "Could not establish connection to KNXnet/IP network. %s: %s",
                 type(ex).__name__,
